@@ -164,7 +164,7 @@ def _run(args, prop, mod, prop_mod, tmpdir, seed, t_start):
     if not args.no_fidelity:
         fth = threading.Thread(target=fidelity_check, args=(mod, tier, tmpdir, box))
         fth.start()
-    results, errors = [], []
+    results, errors, task_walls = [], [], []
     ctx = multiprocessing.get_context("spawn")
     nproc = max(1, min(args.jobs, len(tasks)))
     with cf.ProcessPoolExecutor(max_workers=nproc, mp_context=ctx, initializer=_worker_init, initargs=(prop_mod,)) as ex:
@@ -178,6 +178,7 @@ def _run(args, prop, mod, prop_mod, tmpdir, seed, t_start):
             if r.get("error"):
                 errors.append(f"task {r['task']}: {r['error']}")
             results += r["results"]
+            task_walls.append((round(r.get("wall", 0), 1), json.dumps(r["task"])[:120]))
     if fth:
         fth.join()
         fid = box.get("fidelity", {})
@@ -217,6 +218,12 @@ def _run(args, prop, mod, prop_mod, tmpdir, seed, t_start):
         validate += [(r["id"], w) for w in vs[::step][:per]]
     if not results and not errors:
         errors.append("no harness ran")
+    enum_w = getattr(mod, "extra_validation", None)
+    n_enum = 0
+    if enum_w and not args.only:
+        ws = enum_w() if enum_w.__code__.co_argcount == 0 else enum_w(tier)
+        n_enum = len(ws)
+        validate += [(f"{prop}/enumeration", w) for w in ws]
     # ---- known findings listed for this property
     listed = []
     if os.path.exists(KNOWN_FILE):
@@ -316,9 +323,10 @@ def _run(args, prop, mod, prop_mod, tmpdir, seed, t_start):
         "solver": {"name": "z3", "queries": agg["queries"], "seconds": round(agg["solver_s"], 2)},
         "bounds": getattr(mod, "BOUNDS", {}).get(tier, getattr(mod, "BOUNDS", {})),
         "outside_claim": getattr(mod, "OUTSIDE", []),
-        "validation_replays": {"checked": val_checked, "disagreed": val_bad},
+        "validation_replays": {"checked": val_checked, "disagreed": val_bad, "of_which_enumerated_cases": n_enum},
         "fidelity": box.get("fidelity"),
         "harness_errors": errors[:20],
+        "slowest_tasks": sorted(task_walls, reverse=True)[:5],
         "checker_cmd": f"./check {prop} --tier {tier}",
         "trusted_base": getattr(mod, "TRUSTED", []),
         "exhaustive": False,
@@ -335,6 +343,12 @@ def _run(args, prop, mod, prop_mod, tmpdir, seed, t_start):
     print(f"{prop} {tier}: harnesses={harnesses} paths={agg['paths']} obligations={agg['obligations']} "
           f"discharged={agg['discharged']} unknown={agg['unknown']} known={len(out_lines)} violations={nviol} "
           f"errors={len(errors)} solver={agg['solver_s']:.1f}s wall={wall:.1f}s")
+    if os.environ.get("VERIF_DEBUG"):
+        for w, t in sorted(task_walls, reverse=True)[:8]:
+            print(f"  slow task {w}s {t}")
+        slow = sorted(((r.get("wall_s", 0), r["id"], r.get("paths"), r.get("unknown")) for r in results), reverse=True)[:12]
+        for x in slow:
+            print("  slow harness", x)
     if nviol:
         return 1
     if errors:
